@@ -36,6 +36,19 @@ def case_gen(rng, k):
     return case
 
 
+def extra_cases(seed):
+    """run in addition to the main stream: generator-style simulators whose step() makes no request to mosaik in a call - the
+    generator finishes without having yielded anything, and what it returns is still the reply"""
+    import random
+    out = []
+    for j in range(16):
+        rng = random.Random(seed * 5003 + j)
+        case = gen.gen_queue_case(rng) if j % 4 == 1 else gen.gen_case(rng, groups=(j % 2 == 0))
+        case['quiet'] = [i for i in range(case['n']) if rng.random() < 0.6] or [0]
+        out.append((case, dict(lazy=bool(j % 2), cache=bool(j % 3), strategy=gen.pick_strategy(rng, case), seed=seed * 100 + j)))
+    return out
+
+
 def run(out, info, tier, seed):
     out.trusted_base = common.COMMON_TRUSTED + [
         'modelled by hand: sim_process/next_step_settled/wait_for_dependencies/step/get_outputs/notify_dependencies/advance_progress/'
@@ -44,7 +57,7 @@ def run(out, info, tier, seed):
         'theorem premise static_ok (shape facts; the ancestors table dominates every trigger path) is checked per scenario by comparing the model-built tables with the implementation, not yet discharged by a closure theorem']
     out.assumptions = ['simulators are an oracle: any reply sequence (event list); delays that are compared have equal shape (convex group scenarios)']
     sched_check.sched_property(out, info, tier, seed, 'C02', KINDS, monitors.P_C02, gen_opts={'groups': True},
-                               case_gen=case_gen,
+                               case_gen=case_gen, extra_cases=extra_cases(seed),
                                ncases=(220, 2000), variants=[(True, True), (False, True), (True, False)], nontrivial=nontrivial, features=features,
                                known_match=None, hyp=None,
                                extra_obligations=[('Sched.Inv (invariant preserved by every event)', 'Sched/Inv'),
